@@ -84,7 +84,7 @@ def registry():
 
     from pySDC.projects.DAE.problems.simpleDAE import SimpleDAE
     from pySDC.implementations.sweeper_classes.imex_1st_order_mass import imex_1st_order_mass
-    from sim.massproblem import MassDahlquist
+    from sim.massproblem import MassDahlquist, TwoPartDahlquist
     from pySDC.projects.DAE.problems.discontinuousTestDAE import DiscontinuousTestDAE
     from pySDC.projects.DAE.sweepers.fullyImplicitDAE import FullyImplicitDAE
     from pySDC.projects.DAE.sweepers.semiImplicitDAE import SemiImplicitDAE
